@@ -116,6 +116,8 @@ class Interp:
 
     # ------------------------------------------------------------------ decisions
     def decide(self, cond, st) -> bool:
+        if hasattr(cond, "model_truth"):
+            cond = cond.model_truth()
         if not isinstance(cond, SV):
             return bool(cond)
         t = z3.simplify(zbool(cond))
@@ -540,6 +542,11 @@ class Interp:
             h = registry.EXTERNALS.get(f"{sort}.{attr}")
             if h is not None:
                 return h(self, st, obj)
+            fb = getattr(registry, "SORT_ATTR_FALLBACK", {}).get(sort)
+            if fb is not None:
+                r_ = fb(self, st, obj, attr)
+                if r_ is not None:
+                    return r_
             raise Unsupported(f"{sort} has no modelled attribute '{attr}'")
         if k in ("dict", "set", "seq"):
             return BoundMethod(obj, attr)
